@@ -511,7 +511,8 @@ impl FixedMethod {
                         break;
                     }
 
-                    if index == 0 || chandra {
+                    // A vowel belongs to the last syllable only if it comes after its consonants.
+                    if (index == 0 || chandra) && !constant {
                         vowel = true;
                         step += 1;
                         continue;
